@@ -231,3 +231,108 @@ def concretize(s, mdl):
         else:
             out[k] = model_value(mdl, v)
     return out
+
+
+# ---- relational harnesses for the edit-distance join (C07 / C13) --------------------------------
+
+def _ed_tables(c, cfg):
+    cols = ['id', 'attr', 'x', 'y']
+    lrows = [(1 + i, sym_string(c, 'L%d' % i, cfg['minlen'], cfg['maxlen'], cfg.get('lens_l') or cfg['lens']),
+              'L%d.x' % i, 'L%d.y' % i) for i in range(cfg['nl'])]
+    rrows = [(11 + i, sym_string(c, 'R%d' % i, cfg['minlen'], cfg['maxlen'], cfg.get('lens_r') or cfg['lens']),
+              'R%d.x' % i, 'R%d.y' % i) for i in range(cfg['nr'])]
+    return cols, lrows, rrows
+
+
+def _ed_join(lrows, rrows, cols, tau, op, tok, n_jobs=1):
+    out = repo.mod('').edit_distance_join(
+        pdmodel.FakeFrame(lrows, columns=cols), pdmodel.FakeFrame(rrows, columns=cols), 'id', 'id', 'attr',
+        'attr', tau, op, False, None, None, 'l_', 'r_', True, n_jobs, False, tok)
+    return dict(((r[1], r[2]), r[3]) for r in oracle.Result.of(out).rows)
+
+
+def make_rel(cfg_in):
+    """law: 'transpose' | 'refine' | 'partition' | 'pipeline' on the edit-distance join."""
+    cfg = dict(DEFAULTS)
+    cfg.update(cfg_in)
+    law = cfg['law']
+
+    def h(c):
+        q = symdata.choice(c, 'q', cfg['q'])
+        padding = symdata.choice(c, 'pad', cfg['padding'])
+        tok = QgramTokenizer(qval=q, padding=padding, return_set=False)
+        bagtok = QgramTokenizer(qval=q, padding=padding, return_set=False)
+        cols, lrows, rrows = _ed_tables(c, cfg)
+        tau = symdata.choice(c, 'tau', cfg['taus'])
+        s = dict(entry='ed_join', filter=None, measure='EDIT_DISTANCE', threshold=tau, comp_op='<=',
+                 allow_missing=False, out_sim_score=True, n_jobs=1, q=q, padding=padding, return_set=False,
+                 allow_empty=True, l_key='id', r_key='id', l_attr='attr', r_attr='attr', law=law,
+                 L={'columns': cols, 'rows': lrows, 'index': list(range(len(lrows)))},
+                 R={'columns': cols, 'rows': rrows, 'index': list(range(len(rrows)))})
+
+        def detail(msg):
+            def mk(mdl):
+                return {'prop': cfg['props'][0], 'clause': law, 'msg': msg, 'harness': 'h_ed_rel', 'law': law,
+                        'tau2': cfg.get('tau2'), 'scenario': concretize(s, mdl)}
+            return mk
+
+        def shares(a, bb):
+            for x in bagtok.tokenize(a):
+                for y in bagtok.tokenize(bb):
+                    if x == y:
+                        return True
+            return False
+        b = dict(h_join.bindings())
+        b[('join.edit_distance_join_py', 'get_sim_function')] = _sim_stub
+        bad = None
+        with repo.patched(b):
+            try:
+                A = _ed_join(lrows, rrows, cols, tau, '<=', tok)
+                if law == 'transpose':
+                    B = _ed_join(rrows, lrows, cols, tau, '<=', tok)
+                    Bt = dict(((y, x), v) for (x, y), v in B.items())
+                    for pk in set(A) | set(Bt):
+                        if (pk in A) != (pk in Bt) or (pk in A and not (A[pk] == Bt[pk])):
+                            bad = 'pair %r: join(A,B) %r, join(B,A) %r' % (pk, A.get(pk, 'absent'), Bt.get(pk, 'absent'))
+                elif law == 'refine':
+                    t2 = cfg['tau2']
+                    B = _ed_join(lrows, rrows, cols, t2, '<=', tok)         # t2 < tau: stricter
+                    for pk in set(A) | set(B):
+                        want = pk in A and bool(A[pk] <= t2)
+                        lv = [r for r in lrows if r[0] == pk[0]][0][1]
+                        rv = [r for r in rrows if r[0] == pk[1]][0][1]
+                        if (pk in B) != want and shares(lv, rv):
+                            bad = 'pair %r: at threshold %d %r, at threshold %d %r' % (pk, tau, A.get(pk, 'absent'), t2, B.get(pk, 'absent'))
+                        if pk in B and pk in A and not (A[pk] == B[pk]):
+                            bad = 'pair %r scores differ: %r vs %r' % (pk, A[pk], B[pk])
+                elif law == 'partition':
+                    LT = _ed_join(lrows, rrows, cols, tau, '<', tok)
+                    EQ = _ed_join(lrows, rrows, cols, tau, '=', tok)
+                    for pk in set(A) | set(LT) | set(EQ):
+                        if (pk in A) != ((pk in LT) or (pk in EQ)) or (pk in LT and pk in EQ):
+                            bad = "pair %r: in '<=' %r, in '<' %r, in '=' %r" % (pk, pk in A, pk in LT, pk in EQ)
+                else:   # pipeline: PrefixFilter(EDIT_DISTANCE).filter_tables + apply_matcher(Levenshtein)
+                    ssj = repo.mod('')
+                    f = ssj.PrefixFilter(tok, 'EDIT_DISTANCE', tau)
+                    Lf, Rf = pdmodel.FakeFrame(lrows, columns=cols), pdmodel.FakeFrame(rrows, columns=cols)
+                    cand = f.filter_tables(Lf, Rf, 'id', 'id', 'attr', 'attr', show_progress=False)
+                    M = ssj.apply_matcher(cand, 'l_id', 'r_id', Lf, Rf, 'id', 'id', 'attr', 'attr', None,
+                                          levenshtein_ref, tau, '<=', show_progress=False)
+                    P = dict(((r[1], r[2]), r[3]) for r in oracle.Result.of(M).rows)
+                    for pk in A:
+                        if pk not in P or not (P[pk] == A[pk]):
+                            bad = 'pair %r is in the join (%r) but the pipeline gives %r' % (pk, A[pk], P.get(pk, 'absent'))
+                    for pk in P:
+                        lv = [r for r in lrows if r[0] == pk[0]][0][1]
+                        rv = [r for r in rrows if r[0] == pk[1]][0][1]
+                        if pk not in A and shares(lv, rv):
+                            bad = 'pair %r shares a q-gram, is in the pipeline result but not in the join' % (pk,)
+            except Violation:
+                raise
+            except Exception as e:
+                bad = 'valid call raised %s: %s' % (type(e).__name__, e)
+        if bad:
+            raise Violation('%s/%s: %s' % (cfg['props'][0], law, bad), detail(bad))
+        return {'nontrivial': len(A) > 0, 'tags': [], 'sample': None}
+
+    return h
